@@ -8,8 +8,9 @@
 //	  cap         capacity >= 1
 //	  intervalMs  wakeupInterval of the pool's heartbeat in milliseconds
 //	  gates       (point ...)   gate points at which a goroutine is parked the first time it arrives
-//	              (pipeline.VgLmBeforeWait 20, VgStdBeforeWait 21, VgLmAfterInc 22, VgStdAfterCas 23)
-//	  threads     ((op ...) ...)   script of goroutine i (thread id i+1, passed to get() as `size`)
+//	              (pipeline.VgLmBeforeWait 20, VgStdBeforeWait 21, VgLmAfterInc 22, VgStdAfterCas 23);
+//	              a list item (1 avg) is not a gate: it sets the standard pool's avgEventSize (default 1024)
+//	  threads     ((op ...) ...)   script of goroutine i (thread id i+1, passed to get() as `size`, unless op 8 says otherwise)
 //	     op = (0)      get one event (blocks as the real pool blocks)
 //	          (1)      back the oldest event this goroutine holds (no-op when it holds none)
 //	          (2 ms)   sleep milliseconds
@@ -18,6 +19,15 @@
 //	          (5)      release every parked goroutine and stop parking
 //	          (6 us)   sleep microseconds
 //	          (7)      back the oldest held event a second time as well (double back: a misuse; only for self-tests)
+//	          (8 size) only as the FIRST op: this goroutine's id, and the `size` it passes to get(), is `size` (distinct per
+//	                   goroutine, 1 <= size < 2^32): the low-memory pool's 33 size classes (poolIndex = bits.Len(size))
+//	          (9 what) use the newest held event as the pipeline stages do, so that back() meets resetEvent's thresholds:
+//	                   what&1 append 5000 bytes to Buf (cap > 4096), what&2 decode an object of 100 fields into Root (node
+//	                   pool > 64), what&4 decode a 3000-byte string into Root, what&8 append 100 bytes to Buf (the "keep the
+//	                   buffer" side of the 4096 threshold).  A case with an op 9 or an avg option also
+//	                   CHECKS every event get() returns: Buf empty, Root decodes and reads back this goroutine's id
+//	                   (the harness main sets insane-json's StartNodePoolSize to the production value 16 so that the node-pool
+//	                   threshold 64 has both outcomes: pipedrv.UseProductionNodePool)
 //
 //	observed = ((kind a b c) ...)   kind < 200: the hook labels, in the order the operations took effect;
 //	  200 tid eid   get returned (eid: object number in the standard pool, -1 in the low-memory pool)
@@ -28,7 +38,8 @@
 //	  211 0 0       harness rescue Broadcast (environment step; only after 210 / 215)
 //	  212 tid eid   get returned an object that another holder still holds
 //	  213 q inUse raw waiters held   end of case; q = 1 when every script finished and nothing is held
-//	  214 tid 0     recovered panic of the real code
+//	  214 tid c     c = 0: recovered panic of the real code; c = 2: get() returned an event whose Buf is not empty;
+//	                c = 3: the Root of the event get() returned does not decode / read back (only in cases with op 9 / avg)
 //	  215 n 0       the case did not finish within its deadline (n goroutines still running)
 //	  216 tid ms    LATE WAKE-UP (only for intervalMs >= 200, i.e. the directed "prompt-wakeup" cases): get()
 //	                returned more than half a heartbeat period after capacity became free, i.e. the
@@ -36,7 +47,9 @@
 package pooldrv
 
 import (
+	"fmt"
 	"runtime"
+	"strings"
 	"sync"
 	"time"
 
@@ -86,6 +99,15 @@ var (
 	regMu     sync.RWMutex
 	registry  = map[any]*caseState{}
 	hooksOnce sync.Once
+	wideJSON  = func() string {
+		var sb strings.Builder
+		sb.WriteString(`{"t":0`)
+		for i := 0; i < 100; i++ {
+			fmt.Fprintf(&sb, `,"k%d":%d`, i, i)
+		}
+		return sb.String() + "}"
+	}()
+	bigJSON = `{"t":0,"pad":"` + strings.Repeat("x", 3000) + `"}`
 )
 
 func installHooks() {
@@ -116,19 +138,46 @@ func RunCase(cs hx.Sx) hx.Sx {
 	capacity := int(hx.Int(it[1]))
 	interval := time.Duration(hx.Int(it[2])) * time.Millisecond
 	gatePoints := map[int]bool{}
+	avg, recycle := 1024, false
 	for _, g := range hx.Items(it[3]) {
+		if hx.IsList(g) {
+			if o := hx.Items(g); len(o) == 2 && hx.Int(o[0]) == 1 && hx.Int(o[1]) > 0 {
+				avg, recycle = int(hx.Int(o[1])), true
+			}
+			continue
+		}
 		gatePoints[int(hx.Int(g))] = true
 	}
 	scripts := hx.Items(it[4])
 	if capacity < 1 || interval <= 0 || (kind != 10 && kind != 11) || len(scripts) > 64 {
 		return hx.L(hx.L(hx.I(LPanic), hx.I(0), hx.I(-1)))
 	}
+	// goroutine ids (= sizes): position + 1, or what op 8 says
+	tids := make([]int64, len(scripts))
+	index := map[int64]int{}
+	for i, sc := range scripts {
+		tids[i] = int64(i + 1)
+		if ops := hx.Items(sc); len(ops) > 0 {
+			if o := hx.Items(ops[0]); hx.Int(o[0]) == 8 {
+				tids[i] = hx.Int(o[1])
+			}
+		}
+		for _, op := range hx.Items(sc) {
+			if hx.Int(hx.Items(op)[0]) == 9 {
+				recycle = true
+			}
+		}
+		if _, dup := index[tids[i]]; dup || tids[i] < 1 || tids[i] >= 1<<32 {
+			return hx.L(hx.L(hx.I(LPanic), hx.I(0), hx.I(-1)))
+		}
+		index[tids[i]] = i
+	}
 
 	var pool pipeline.VerifPool
 	if kind == 10 {
 		pool = pipeline.VerifNewLowMemoryEventPool(capacity, interval)
 	} else {
-		pool = pipeline.VerifNewEventPool(capacity, 1024, interval)
+		pool = pipeline.VerifNewEventPool(capacity, avg, interval)
 	}
 	log := &caseLog{}
 	st := &caseState{log: log}
@@ -166,7 +215,10 @@ func RunCase(cs hx.Sx) hx.Sx {
 		parked++
 		ch := release
 		gm.Unlock()
-		idx := int(tid) - 1
+		idx, known := index[tid]
+		if !known {
+			idx = -1
+		}
 		if idx >= 0 && idx < len(threads) {
 			hm.Lock()
 			threads[idx].parked = true
@@ -204,7 +256,7 @@ func RunCase(cs hx.Sx) hx.Sx {
 
 	var wg sync.WaitGroup
 	for i, sc := range scripts {
-		tid := int64(i + 1)
+		tid := tids[i]
 		ops := hx.Items(sc)
 		t := threads[i]
 		wg.Add(1)
@@ -265,6 +317,15 @@ func RunCase(cs hx.Sx) hx.Sx {
 					if dup {
 						log.add(LDup, tid, id)
 					}
+					if recycle && e != nil {
+						// the event must be as good as new whatever its previous holder did to it
+						if len(e.Buf) != 0 {
+							log.add(LPanic, tid, 2)
+						}
+						if err := e.Root.DecodeString(fmt.Sprintf(`{"t":%d}`, tid)); err != nil || e.Root.Dig("t") == nil || int64(e.Root.Dig("t").AsInt()) != tid || len(e.Root.AsFields()) != 1 {
+							log.add(LPanic, tid, 3)
+						}
+					}
 					mine = append(mine, e)
 				case 1, 7:
 					if len(mine) == 0 {
@@ -304,6 +365,23 @@ func RunCase(cs hx.Sx) hx.Sx {
 					releaseAll()
 				case 6:
 					time.Sleep(time.Duration(hx.Int(o[1])) * time.Microsecond)
+				case 9:
+					if len(mine) == 0 {
+						continue
+					}
+					e, what := mine[len(mine)-1], hx.Int(o[1])
+					if what&1 != 0 {
+						e.Buf = append(e.Buf, make([]byte, 5000)...)
+					}
+					if what&2 != 0 {
+						_ = e.Root.DecodeString(wideJSON)
+					}
+					if what&4 != 0 {
+						_ = e.Root.DecodeString(bigJSON)
+					}
+					if what&8 != 0 {
+						e.Buf = append(e.Buf, make([]byte, 100)...)
+					}
 				}
 			}
 		}()
@@ -337,7 +415,7 @@ func RunCase(cs hx.Sx) hx.Sx {
 						}
 						if now.Sub(from) > limit {
 							t.reported = true
-							log.add(LStuck, int64(i+1), now.Sub(from).Milliseconds())
+							log.add(LStuck, tids[i], now.Sub(from).Milliseconds())
 							rescuing = true
 						}
 					}
